@@ -203,6 +203,9 @@ func runNewConnInner(record []byte, keys []ech.Key) (o obsNewConn) {
 		if o.Kind != "panic" && !reflect.DeepEqual(keysBefore, cloneKeys(keys)) {
 			o.Kind, o.Panic = "panic", "NewConn / Read modified the key list the caller passed to WithKeys"
 		}
+		if d := checkKeyArrays(); o.Kind != "panic" && d != "" {
+			o.Kind, o.Panic = "panic", d
+		}
 	}()
 	var opts []ech.Option
 	opts = append(opts, keyOptions(keys)...)
